@@ -25,7 +25,7 @@ F = "DecFileParser.print_decay_modes"
 
 
 def run(ctx, ss):
-    for r, f in (("C16.1", c16_1), ("C16.3", c16_3), ("C16.4", c16_4), ("C16.5", c16_5), ("C16.6", c16_6), ("C16.7", c16_7), ("C16.8", c16_8)):
+    for r, f in (("C16.1", c16_1), ("C16.3", c16_3), ("C16.4", c16_4), ("C16.5", c16_5), ("C16.6", c16_6), ("C16.7", c16_7), ("C16.8", c16_8), ("C16.3", c16_9)):
         ctx.guard(r, f, ss)
 
 
@@ -303,7 +303,11 @@ def c16_5(ctx, ss):
         v = flow.expand(d.value)
         if txt(v).startswith("sum("):
             conds = [(txt(e), pol) for kind, e, pol in guards.path_conditions(ff.node, d.stmt) if kind == "if"]
-            ok = conds == [("normalize", True)] and isinstance(v.args[0], ast.GeneratorExp) and not v.args[0].generators[0].ifs
+            g0 = v.args[0].generators[0] if isinstance(v.args[0], ast.GeneratorExp) else None
+            rows_src = txt(flow.expand(enclosing(ff, prints[0], (ast.For,))[0].iter))
+            ok = conds == [("normalize", True)] and g0 is not None and not g0.ifs and txt(g0.iter) in (rows_src, rows_src.replace("sorted(", "", 1)) or (
+                conds == [("normalize", True)] and g0 is not None and not g0.ifs and txt(g0.iter).startswith("sorted([") and txt(g0.iter) == rows_src)
+            ok = ok and txt(v.args[0].elt) == f"__elem__({txt(g0.iter)})[0]"
             (ctx.holds if ok else ctx.violation)("C16.5", ckey(ff, None, "norm:normalize"), where(ff, d.stmt),
                                                   "normalize ⇒ norm = Σ of all branching fractions" if ok else f"normalisation sum is conditional / partial: {conds} {txt(v)[:60]}")
 
@@ -346,6 +350,37 @@ def c16_7(ctx, ss):
         ctx.violation("C16.7", k, where(ff, w.node if w else ff.node), f"printing changes stored values: {w.how + ' on ' + str(w.root) if w else 'mutates ' + str(mp)}")
     else:
         ctx.holds("C16.7", k, where(ff, ff.node), "print_decay_modes writes no parser state", len(ef.local[ff.key]) + 1)
+
+
+def c16_9(ctx, ss):
+    """Defaults of the options and completeness of the parameter column."""
+    ff, flow = fn(ss, DEC, F)
+    a = ff.node.args
+    names = [x.arg for x in a.args][-len(a.defaults):]
+    got = {n: (d.value if isinstance(d, ast.Constant) else "?") for n, d in zip(names, a.defaults)}
+    want = {"pdg_name": False, "print_model": True, "display_photos_keyword": True, "ascending": False, "normalize": False, "scale": None}
+    k = ckey(ff, None, "defaults")
+    if got == want:
+        ctx.holds("C16.3", k, where(ff, ff.node), "defaults: descending order, values unchanged, model and PHOTOS keyword shown, EvtGen mother name", len(want))
+    else:
+        diff = {n: got.get(n) for n in want if got.get(n) != want[n]}
+        ctx.violation("C16.3", k, where(ff, ff.node), f"option defaults changed: {diff} (the property fixes descending order / unchanged values / model and PHOTOS shown by default)")
+    # parameter column: every parameter of the line, in order
+    pm = [d for d in flow.defs if d.kind == "assign" and isinstance(d.value, ast.ListComp) and "model_params" in txt(d.value)]
+    okp = len(pm) == 1 and not pm[0].value.generators[0].ifs and txt(flow.expand(pm[0].value.generators[0].iter)).endswith("['model_params']") \
+        and txt(pm[0].value.elt) == f"str({txt(pm[0].value.generators[0].target)})"
+    (ctx.holds if okp else ctx.violation)("C16.4", ckey(ff, None, "all-params"), where(ff, pm[0].stmt if pm else ff.node),
+                                          "the parameter column lists every parameter of the line, in order" if okp else "the parameter column does not list every parameter of the line")
+    joins = [d for d in flow.defs if d.kind == "assign" and isinstance(d.value, ast.IfExp) and "join" in txt(d.value) and pm and pm[0].name in txt(d.value)]
+    okj = False
+    if len(joins) == 1:
+        e = joins[0].value
+        n = pm[0].name
+        t, b, o = txt(e.test), txt(e.body), txt(e.orelse)
+        okj = (t in (f"{n} == []", f"not {n}", f"len({n}) == 0") and b == "''" and o == f"' '.join({n})") or \
+              (t in (f"{n} != []", n, f"len({n}) > 0") and o == "''" and b == f"' '.join({n})")
+    (ctx.holds if okj else ctx.violation)("C16.4", ckey(ff, None, "params-joined"), where(ff, joins[0].stmt if joins else ff.node),
+                                          "parameters are joined with blanks (empty string when there are none)" if okj else "the parameter column is not ' '.join(all parameters)")
 
 
 def c16_8(ctx, ss):
